@@ -206,6 +206,71 @@ func runR07_2(c *Ctx, r *R) {
 			return len(ret.Results) == 1 && sa.classOf(ret.Results[0], ret.Block(), false, 0) == SOK
 		}
 		negSize := func(v ssa.Value) (ssa.Value, bool) { return negLenOf(v, data) }
+		// ... or in a helper that decrementSendWindow tail-calls with the size (awaitSendWindow(ctx, size)): the
+		// helper's OK returns admit, its size parameter receives len(data)
+		if len(loads) == 0 && data != nil {
+			for _, call := range callsIn(f, false) {
+				cv, ok := call.(*ssa.Call)
+				h := call.Common().StaticCallee()
+				if !ok || h == nil || h.Blocks == nil || h.Pkg != f.Pkg || len(cv.Call.Args) == 0 || cv.Call.Args[0] != ssa.Value(f.Params[0]) || isBoolType(cv.Type()) {
+					continue
+				}
+				if len(fieldMethodCalls(h, "sendWindow", "Load")) == 0 || len(fieldMethodCalls(h, "sendWindow", "Add")) == 0 {
+					continue
+				}
+				sizeParam := -1
+				for i, a := range cv.Call.Args {
+					x := a
+					for {
+						if cv2, ok := x.(*ssa.Convert); ok {
+							x = cv2.X
+							continue
+						}
+						break
+					}
+					if isLenOf(x, data) {
+						sizeParam = i
+					}
+				}
+				// every possibly-OK return of decrementSendWindow forwards the helper's status
+				forwards := sizeParam >= 0
+				for _, ret := range returnsOf(f) {
+					if len(ret.Results) != 1 || sa.classOf(ret.Results[0], ret.Block(), false, 0) == SNonOK {
+						continue
+					}
+					if tailCallOf(ret) != cv {
+						forwards = false
+					}
+				}
+				if !forwards {
+					continue
+				}
+				A = h
+				loads = fieldMethodCalls(h, "sendWindow", "Load")
+				adds = fieldMethodCalls(h, "sendWindow", "Add")
+				sp := sizeParam
+				negSize = func(v ssa.Value) (ssa.Value, bool) {
+					un, ok := v.(*ssa.UnOp)
+					if !ok || un.Op != token.SUB {
+						return nil, false
+					}
+					x := un.X
+					for {
+						if cv2, ok := x.(*ssa.Convert); ok {
+							x = cv2.X
+							continue
+						}
+						break
+					}
+					if x == ssa.Value(h.Params[sp]) {
+						return un.X, true
+					}
+					return nil, false
+				}
+				r.OK(fnKey(f)+"/admit-gate", f.Pos(), "every possibly-OK return forwards the status of %s(…, len(data))", h.Name())
+				break
+			}
+		}
 		if len(loads) == 0 && data != nil {
 			var hcall *ssa.Call
 			nh := 0
@@ -463,6 +528,15 @@ func runR07_5(c *Ctx, r *R) {
 	// waiter re-loads the window inside the loop after waking: the Load is in the loop containing the select
 	if f := r.Need("mpx", "channelState.decrementSendWindow"); f != nil {
 		key := fnKey(f) + "/reload-after-wake"
+		// the loop may live in a helper that decrementSendWindow hands over to (awaitSendWindow)
+		if len(fieldMethodCalls(f, "sendWindow", "Load")) == 0 {
+			for _, call := range callsIn(f, false) {
+				if h := call.Common().StaticCallee(); h != nil && h.Blocks != nil && h.Pkg == f.Pkg && len(fieldMethodCalls(h, "sendWindow", "Load")) > 0 && len(fieldMethodCalls(h, "sendWindow", "Add")) > 0 {
+					f = h
+					break
+				}
+			}
+		}
 		loads := fieldMethodCalls(f, "sendWindow", "Load")
 		if len(loads) == 0 {
 			// the window is read by a helper called from the loop: the call is the read point
